@@ -234,6 +234,14 @@ theorem whitespace_modes :
   refine ⟨by decide, by decide, by decide, ?_, by decide⟩
   intro ws; cases ws <;> decide
 
+/-- `inline_in_block` may leave out a text box holding one space at the start of a line only when that
+space is collapsible: the `white-space` values of that test are exactly those for which
+`process_whitespace` collapses spaces (both tuples are read from the source on every run).  Under
+`pre` / `pre-wrap` a lone space is content. -/
+theorem line_start_space_collapsible :
+    ∀ ws : WS, Gen.lineStartSpaceWs.contains ws = spaceCollapse ws := by
+  intro ws; cases ws <;> decide
+
 private theorem nlc_imp_sc (ws : WS) (h : newLineCollapse ws = true) : spaceCollapse ws = true := by
   cases ws <;> first | rfl | (exact absurd h (by decide))
 
